@@ -533,6 +533,56 @@ def strview_is_guarded(k, cc):
 
 
 
+STRING_REPR_REVIEWED = {
+    "minijinja::utils::write_with_html_escaping": "the SmallStr arm is a fast path for integer-looking inline strings; every other string goes to the generic escaping below it",
+    "minijinja::utils::write_escaped": "only the heap representation carries the safe flag (`String(_, Safe)`); plain strings of both representations fall to the escaping arms",
+    "minijinja::value::Value::is_safe": "only the heap representation carries the safe flag; an inline string is never safe",
+    "<minijinja::value::Value as core::cmp::PartialEq>::eq": "nested match on the pair of representations: the (String, SmallStr) / (SmallStr, String) rows list one each, all four rows are present (V1a/V1b decide the pairs)",
+    "<minijinja::value::Value as core::cmp::Ord>::cmp": "nested match on the pair of representations (see eq); V1c/V1d decide the pairs",
+    "<minijinja::value::Value as serde_core::de::Deserializer<'de>>::deserialize_any": "nested: the SmallStr arm borrows the inline buffer, the String arm sits in the outer match (T4 checks that both visit text)",
+}
+
+
+def check_string_reprs(ctx, prog, tag, rule, scope):
+    """a string value has two representations (heap `String`, inline `SmallStr` up to 22 bytes).  Code that matches on
+    the representation and names one of them names the other as well - otherwise what it does depends on the length of
+    the string (seed C16-8: enum unit variants longer than 22 bytes were refused).  The switches that list exactly one
+    are a reviewed table (function -> reason); the count per function is part of the key."""
+    a = prog.adt(REPR)
+    by = {v["name"]: v["discr"] for v in a["variants"]}
+    n = 0
+    for f in sorted(prog.fns.values(), key=lambda g: g.path):
+        if f.crate != "minijinja" or not scope(f):
+            continue
+        asym = []
+        for sb, cd in arms.enum_switches(prog, f, REPR):
+            listed = {v for v, _ in f.term(sb)["arms"]}
+            n += 1
+            if (by["String"] in listed) != (by["SmallStr"] in listed):
+                asym.append((sb, "String" if by["String"] in listed else "SmallStr"))
+        if not asym:
+            continue
+        key = f.path.replace("minijinja::value::deserialize::<impl serde_core::de::Deserializer<'de> for minijinja::value::Value>",
+                             "<minijinja::value::Value as serde_core::de::Deserializer<'de>>")
+        why = STRING_REPR_REVIEWED.get(key)
+        base_n = REVIEWED_COUNTS.get(key)
+        ok = why is not None and (base_n is None or len(asym) <= base_n)
+        ctx.ob(rule, "%s%s|%s" % (tag, key, "+".join(sorted(x for _, x in asym))), ok,
+               ("reviewed: " + why) if ok else
+               "%s matches on the representation of a value and lists only the %s representation of strings (%d switch(es)): "
+               "the other one (inline strings hold up to 22 bytes) takes the default arm, so the outcome depends on the length "
+               "of the string" % (f.path.split("::")[-1], "/".join(sorted({x for _, x in asym})), len(asym)), f.where(asym[0][0]))
+    return n
+
+
+REVIEWED_COUNTS = {
+    "minijinja::utils::write_with_html_escaping": 1, "minijinja::utils::write_escaped": 1, "minijinja::value::Value::is_safe": 1,
+    "<minijinja::value::Value as core::cmp::PartialEq>::eq": 2, "<minijinja::value::Value as core::cmp::Ord>::cmp": 2,
+    "<minijinja::value::Value as serde_core::de::Deserializer<'de>>::deserialize_any": 1,
+}
+
+
+
 SETS = ("BTreeSet", "HashSet", "IndexSet", "BTreeMap", "HashMap", "IndexMap")
 
 
@@ -797,14 +847,18 @@ def run(ctx):
                    "cmp(%s, %s) reaches %s on a value that is None for these variants: the comparison panics"
                    % (a, b, ", ".join(sorted({w[0].split("::")[-1] for w in ws}))), cmpf.loc)
         # ---- V1d
-        ks = [c for c in cmpf.calls() if c.name == KINDFN]
-        oc = [c for c in cmpf.calls() if c.path == "core::cmp::Ord::cmp" and (c.self_ty or {}).get("adt") == KIND]
+        # read through a private helper that takes the kind of a value for the order (`kind_rank(value)`)
+        from .. import inline as _inl
+        cmpv = _inl.view(prog, cmpf, keep=lambda t: not (t.startswith("minijinja::value::") and prog.has_fn(t) and prog.fn(t).nblocks <= 12
+                                                          and not prog.fn(t).is_pub) or t == KINDFN)
+        ks = [c for c in cmpv.calls() if c.name == KINDFN]
+        oc = [c for c in cmpv.calls() if c.path == "core::cmp::Ord::cmp" and (c.self_ty or {}).get("adt") == KIND]
         ok = len(ks) >= 2 and len(oc) == 1
         if ok:
             # every other call of cmp is dominated by the switch that returns the kind ordering unless Equal
             first = oc[0]
-            others = [c for c in cmpf.calls() if c.bb != first.bb and c.name != KINDFN and not cfg.dominates(cmpf, c.bb, first.bb)]
-            ok = all(cfg.dominates(cmpf, first.bb, c.bb) for c in others)
+            others = [c for c in cmpv.calls() if c.bb != first.bb and c.name != KINDFN and not cfg.dominates(cmpv, c.bb, first.bb)]
+            ok = all(cfg.dominates(cmpv, first.bb, c.bb) for c in others)
             mv = None
             for bb in cmpf.reachable:
                 if cmpf.term(bb)["k"] == "switch":
@@ -914,6 +968,9 @@ def run(ctx):
         check_float_order_vs_equality(ctx, prog, tag)
         check_inline_padding(ctx, prog, tag)
         n12 = check_dedup(ctx, prog, tag)
+        n13 = check_string_reprs(ctx, prog, tag, "C07.V13.string-representations-are-handled-alike",
+                                 lambda f: not f.loc.f.endswith(("value/deserialize.rs", "value/serialize.rs")))
+        ctx.floor("C07.V13 switches on the value representation" + tag, n13, 40)
         if prog.has_fn("minijinja::filters::builtins::unique"):
             ctx.floor("C07.V12 de-duplicating loops" + tag, n12, 1)
         if cname == "MAX":
